@@ -144,7 +144,7 @@ def run_case(case, root):
 
         if case["envcfg"] is not None:
             e = case["envcfg"]
-            environ[env_name(prefix, "cfg")] = cfg_value(e["doc"], e["as"], e["fmt"])
+            environ[env_name(prefix, "cfg")] = envcfg_value = cfg_value(e["doc"], e["as"], e["fmt"])
         for key, value in case["envvars"]:
             environ[env_name(prefix, key)] = scalar_text(value)
 
@@ -163,9 +163,18 @@ def run_case(case, root):
 
         if entry["kind"] == "args":
             argv = []
+            cfg_paths = {}   # file id -> path, for a config file that is given more than once
             for it in entry["argv"]:
                 if "cfg" in it:
-                    val = cfg_value(it["cfg"], it["as"], it["fmt"])
+                    fid = it.get("fid")
+                    if fid == "envcfg":
+                        val = envcfg_value               # the very file the config environment variable names
+                    elif fid is not None and fid in cfg_paths:
+                        val = cfg_paths[fid]             # the same file (same path) given again
+                    else:
+                        val = cfg_value(it["cfg"], it["as"], it["fmt"])
+                        if fid is not None:
+                            cfg_paths[fid] = val
                     argv += ["--cfg=" + val] if it["style"] == "eq" else ["--cfg", val]
                     continue
                 a = it["asg"]
